@@ -39,6 +39,7 @@ pub fn scenarios(thorough: bool) -> Vec<Scenario> {
     // cross the activation height by real blocks (a fabricated jump past it would skip the TIP-906 transition)
     tds.pre = vec![Action::Jump(498), Action::Open, Action::Seal(None), Action::Open, Action::Seal(None)];
     v.push(tds);
+    v.extend(genesis_scenarios(["custom02-genesis-sym-feepool-stake", "custom02-genesis-erg-fees-stakes", "custom02-genesis-huge-mel-feepool"], NetID::Custom02, &pools, if thorough { 7 } else { 5 }));
     if thorough {
         let mut tp = sc("testnet-activation-pools", NetID::Testnet, 0, pools, 8);
         tp.pre = vec![Action::Jump(498)];
